@@ -98,6 +98,10 @@ def enumerate_faults(ws, rng):
         else:
             mi = rng.randrange(nmeas)
         routes = ["model", "workspace"] if rng.random() < 0.35 else (["model"] if rng.random() < 0.8 else ["workspace"])
+        # construction options that must not switch the structural checks off: validate=False only skips the JSON
+        # schema, batch_size only adds a leading dimension
+        if rng.random() < 0.3:
+            routes = routes + [rng.choice(["model", "workspace"]) + rng.choice(["_nv", "_nv", "_b2", "_nv_b2"])]
         out.append({"op": "inject", "cls": cls, "variant": variant, "pos": pos, "edits": edits, "poi": poi,
                     "mi": mi, "routes": routes})
         if pname is not None:
@@ -397,7 +401,7 @@ def gen(rng: random.Random, k: int, tier: str) -> dict:
         if pa & pb:
             continue
         pairs.append({"op": "inject", "cls": "pair", "variant": f"{a['cls']}+{b['cls']}", "pos": [a["pos"], b["pos"]],
-                      "edits": a["edits"] + b["edits"], "poi": None, "mi": a["mi"], "routes": ["model", "workspace"],
+                      "edits": a["edits"] + b["edits"], "poi": None, "mi": a["mi"], "routes": ["model", "workspace"] + (["model_nv"] if rng.random() < 0.2 else []),
                       "parts": [{"cls": a["cls"], "variant": a["variant"]}, {"cls": b["cls"], "variant": b["variant"]}]})
     # two faults about ONE parameter name (e.g. lumi settings removed AND the name 'lumi' also demanded by a normsys):
     # each component is refused alone; together one may mask the other's check
@@ -465,11 +469,16 @@ class World:
 
     def _build(self, ws, route, mi, poi=None):
         pyhf = self.pyhf
-        if route == "model":
+        kw = {}
+        if "_nv" in route:
+            kw["validate"] = False
+        if "_b2" in route:
+            kw["batch_size"] = 2
+        if route.startswith("model"):
             spec, p = specs.model_spec(ws, mi)
-            return pyhf.Model(spec, poi_name=poi if poi is not None else p)
-        w = pyhf.Workspace(ws)
-        return w.model(measurement_name=ws["measurements"][mi]["name"])
+            return pyhf.Model(spec, poi_name=poi if poi is not None else p, **kw)
+        w = pyhf.Workspace(ws, validate="_nv" not in route)
+        return w.model(measurement_name=ws["measurements"][mi]["name"], **kw)
 
     def op_base(self, op):
         self.ws = op["ws"]
@@ -513,7 +522,7 @@ class World:
         if mi >= len(ws["measurements"]):
             mi = 0
         for route in op.get("routes", ["model", "workspace"]):
-            kind, e = self._try(ws, route, mi, op.get("poi") if route == "model" else None)
+            kind, e = self._try(ws, route, mi, op.get("poi") if route.startswith("model") else None)
             ctx.mark_nontrivial([self.docid, op["cls"], op["variant"], op["pos"], route, mi])
             ctx.state([op["cls"], op["variant"], route, kind if isinstance(kind, str) else kind.__name__])
             sig = {"cls": op["cls"], "variant": op["variant"], "route": route}
@@ -551,7 +560,7 @@ class World:
             return "noop"
         res = []
         for mi in range(min(1, len(ws["measurements"]))):
-            for route in ("model", "workspace"):
+            for route in ("model", "workspace", "model_nv", "workspace_nv_b2"):
                 kind, e = self._try(ws, route, mi, None)
                 ctx.c.oracle_evals["control"] += 1
                 if kind != "accepted":
